@@ -3,6 +3,7 @@ import ast
 
 from .model import AnalysisError, node_src, is_self_attr, call_name
 from .report import walk_no_nested
+from .paths import Const
 from . import wire, spec, exchange
 
 LEVEL = "other"
@@ -96,6 +97,10 @@ def run(chk):
             for fnd in r.findings:
                 r5.fail("via-" + fnd.key, "a stored value does not come back: " + fnd.msg, file=fnd.file, line=fnd.line)
     r5.ok("serializer writer/reader tables and the COMPRESSED flag decision agree (%d obligations of C15.R2/R3/R5 re-checked)" % n_sub)
+    # through FallbackClient a read returns the first cache's answer, not a merge in which an older cache's copy wins
+    from . import rules_C18
+
+    report.include_rules(chk, r5, rules_C18, ("C18.R2",), "a value fetched through FallbackClient is the first answering cache's value")
     # the prefix never leaks into results: fetch results are keyed through the remap (R3); stats/cache_memlimit use b""
     chk.assume("a faithful memcached returns exactly the bytes it was given; serializer round trips are C15")
 
@@ -105,6 +110,17 @@ def prefix_symmetry(prog, r4):
     for m in wire.wire_methods(prog):
         first = m.pos_params()[0].name if m.pos_params() else None
         if first not in ("key", "keys", "values"):
+            # not key-addressed (stats, cache_memlimit, ...): what is validated like a key there is an argument of the
+            # command, not a name in the key space - it must go out as given, without the client's key_prefix
+            dom = wire.evaluate(prog, m)
+            badp = None
+            for ev in dom.events:
+                for cmd in wire.commands_of(ev["wire"]):
+                    for fr in _flat(cmd):
+                        if fr[0] == "key" and fr[2] != Const(b""):
+                            badp = "an argument of the command is sent with the prefix %s" % wire.describe(fr[2])
+            if badp is not None:
+                r4.fail("Client.%s:argument-prefixed" % m.name, "Client.%s: %s; `%s` takes no keys, so the prefix turns e.g. `stats items` into `stats <prefix>items`" % (m.name, badp, m.name), fn=m, node=m.node)
             continue
         dom = wire.evaluate(prog, m)
         bad = None
@@ -147,7 +163,7 @@ def _consuming_uses(f, pname):
             rebound_at = (s.lineno, s.col_offset)
             break
     def before(n):
-        return rebound_at is None or (n.lineno, n.col_offset) < rebound_at
+        return rebound_at is None or (n.lineno, getattr(n, "col_offset", 0)) < rebound_at
 
     seen = set(id(u) for u in uses)
     for n in sorted(walk_no_nested(f.node), key=lambda n: (getattr(n, "lineno", 0), getattr(n, "col_offset", 0))):
